@@ -114,8 +114,20 @@ fn cmd_ref(a: &Args) {
         (i.parse::<usize>().unwrap_or(0), n.parse::<usize>().unwrap_or(1).max(1))
     };
     let reverse = a.get("reverse").is_some();
-    let skip: std::collections::HashSet<String> =
-        a.get("skip").map(|s| s.split(',').map(str::to_string).collect()).unwrap_or_default();
+    // `--skip id=KEY,id=KEY`: sources a previous attempt of this partition could not finish
+    // (KEY S = stalled, A<n> = the process died with signal/exit n); recorded, not re-run
+    let skip: HashMap<String, String> = a
+        .get("skip")
+        .map(|s| {
+            s.split(',')
+                .filter(|x| !x.is_empty())
+                .map(|x| match x.split_once('=') {
+                    Some((i, k)) => (i.to_string(), k.to_string()),
+                    None => (x.to_string(), "S".to_string()),
+                })
+                .collect()
+        })
+        .unwrap_or_default();
     let mut idx: Vec<usize> = (0..cat.sources.len()).filter(|i| i % pn == pi).collect();
     if reverse {
         idx.reverse();
@@ -124,12 +136,17 @@ fn cmd_ref(a: &Args) {
         std::fs::File::create(a.req("out")).unwrap_or_else(|e| die(&e.to_string())),
     );
     let t0 = Instant::now();
+    let cur_path = format!("{}.cur", a.req("out"));
     for i in idx {
         let s = &cat.sources[i];
-        if skip.contains(&s.id) {
-            let _ = writeln!(out, "{}", reference::line_for(s, &RefResult::Stalled));
+        if let Some(key) = skip.get(&s.id) {
+            let _ = writeln!(out, "{}\t{}\tDidNotReturn\t0\t0\t", s.id, key);
             continue;
         }
+        // marker for the orchestrator: which source was in flight if this process dies
+        // (stack overflow, abort) instead of returning
+        let _ = out.flush();
+        let _ = std::fs::write(&cur_path, &s.id);
         let r = clean_room(&s.text);
         let _ = writeln!(out, "{}", reference::line_for(s, &r));
         if matches!(r, RefResult::Stalled) {
@@ -141,6 +158,7 @@ fn cmd_ref(a: &Args) {
         }
     }
     let _ = out.flush();
+    let _ = std::fs::remove_file(&cur_path);
     println!(
         "ref build={} part={}/{} sources={} wall_s={:.2}",
         build_name(a),
@@ -502,7 +520,15 @@ fn cmd_sweep(a: &Args) {
         }
         if let Some(v) = r.violations.first() {
             nviol += 1;
-            let m = minimise::minimise(&sc, v, Duration::from_secs(a.u64("minimise-seconds", 60)));
+            let m = if v.what == "stall" {
+                // a stalled run leaves a spinning thread behind: report as is
+                let mut s = sc.clone();
+                let upto = r.outcomes.len() + 1;
+                s.clients[0].truncate(upto);
+                minimise::Minimised { scenario: s, violation: v.clone(), candidates_tried: 0, original_ops: sc.clients[0].len(), final_ops: upto }
+            } else {
+                minimise::minimise(&sc, v, Duration::from_secs(a.u64("minimise-seconds", 60)))
+            };
             // the unminimised scenario is the whole catalogue: keep only the minimised one
             let path = write_replay(&replay_dir, &format!("{build}-sweep"), base_seed, perm, &m, &m.scenario);
             println!(
